@@ -72,11 +72,19 @@ THEOREMS = [
     "Mesa.Cont.C10_exp_neighbors_in_radius_metric",
     "Mesa.Cont.C10_legacy_heading_metric",
     "Mesa.Cont.C10_exp_difference_metric",
+    "Mesa.Cont.C10_exp_difference_reaches",
+    "Mesa.Cont.C10_exp_differences_exact",
+    "Mesa.Cont.C10_exp_zero_distance_iff",
     "Mesa.Cont.C18_cont_place_reject_unchanged",
     "Mesa.Cont.C18_cont_move_reject_unchanged",
     "Mesa.Cont.C18_cont_remove_reject_unchanged",
     "Mesa.Cont.C18_cont_setpos_reject_unchanged",
+    "Mesa.Cont.C18_cont_setpos_stepwise",
+    "Mesa.Cont.C18_cont_setpos_reject_state",
+    "Mesa.Cont.C18_cont_setpos_write_first_refuted",
+    "Mesa.Cont.C18_cont_iadd_stepwise",
     "Mesa.Cont.C18_cont_iadd_reject_unchanged",
+    "Mesa.Cont.C18_cont_iadd_view_getter_refuted",
     "Mesa.Cont.C18_cont_legacy_rejected_call_erasable",
     "Mesa.Cont.C18_cont_exp_rejected_call_erasable",
 ]
